@@ -108,6 +108,8 @@ def make_resolver(coord, bundle=None):
         if outcome[0] == "raise":
             _, kind, tok, tf = outcome
             if kind == "raise_tf":
+                if len(tf) > 2 and tf[2] is not None:
+                    raise UserError(tf[2], user_message=tf[0], extensions=dict(tf[1]))
                 raise UserError(tf[0], extensions=dict(tf[1]))
             if kind == "raise_shared":
                 pool = rt.shared if rt.shared is not None else rt.__dict__.setdefault("_own_shared", {})
